@@ -121,10 +121,10 @@ class PolytopeTensor(PointLikeTensor, ABC):
         if pdim == 1:
             return SegmentCollection.from_tensor(tensor)
         if pdim == 2:
-            if tensor.shape[-2] == 3:
-                # TODO: check if a collection can be returned here
+            # a single polygon has the vertex axis as its only free axis; several polygons stay a collection
+            if tensor.free_indices == 1 and tensor.shape[-2] == 3:
                 return Triangle(tensor, copy=False)
-            if tensor.shape[-2] == 4:
+            if tensor.free_indices == 1 and tensor.shape[-2] == 4:
                 try:
                     return Rectangle(tensor, copy=False)
                 except NotCoplanar:
